@@ -30,6 +30,12 @@ def check(repo: Repo, rep, tier):
 
     map_total(repo, rep)
     configure(repo, rep)
+    from .C14 import reeval_raises
+
+    reeval_raises(repo, rep)
+    from .C14 import reeval_type
+
+    reeval_type(repo, rep)
 
 
 def no_flags(v):
